@@ -12,6 +12,7 @@ import (
 	"verif/harness/distributor"
 	"verif/harness/minter"
 	"verif/harness/signature"
+	"verif/harness/upgrade"
 	"verif/harness/vesting"
 	"verif/harness/walk"
 )
@@ -93,6 +94,13 @@ func main() {
 			fmt.Fprintln(os.Stderr, err)
 			os.Exit(2)
 		}
+	case "upgrade":
+		res, err := upgrade.Run(*edges, *workers, *budget, *walks, *depth, *seed)
+		if err != nil {
+			fmt.Fprintln(os.Stderr, "upgrade:", err)
+			os.Exit(2)
+		}
+		writeResult(*out, res)
 	default:
 		fmt.Fprintln(os.Stderr, "unknown command", cmd)
 		os.Exit(2)
